@@ -307,7 +307,7 @@ def exec_align_states(item):
             if got[0] != exp[0] or (exp[0] == "ok" and (got[1] != exp[1] or got[2] != exp[2])):
                 mism.append(_mm("align", "index2", inp, exp, got, index=[cidx, ridx]))
     mid = states[len(states) // 2]
-    return {"mismatch": mism[:50], "calls": ncalls, "cases": len(states), "nontrivial": nontriv, "stats": stats,
+    return {"mismatch": mism[:200], "calls": ncalls, "cases": len(states), "nontrivial": nontriv, "stats": stats,
             "sample": {"inp": mid["inp"], "expected_term": mid["res"]["term"], "expected_score": mid["res"]["score"]}}
 
 
@@ -418,7 +418,7 @@ def exec_cigar_states(item):
                 if w[0] != "ok" or w[1] != res["again"] or w2 != res["again"]:
                     mism.append(_mm("cigar_r", "write_again", {"c": c, "pos": pos, "ref": ref, "seg": seg,
                                                                "o": res["opts"]}, res["again"], [w, w2]))
-    return {"mismatch": mism[:50], "calls": ncalls, "cases": len(states), "nontrivial": nontriv, "stats": stats,
+    return {"mismatch": mism[:200], "calls": ncalls, "cases": len(states), "nontrivial": nontriv, "stats": stats,
             "sample": sample}
 
 
@@ -816,6 +816,18 @@ def classify(mm):
     set that contains two identical one-symbol-repeated sequences raises ZeroDivisionError.
     The predicate value comes from the specification (KB_C11_IdenticalHomopolymers, printed by
     Trace.tla)."""
+    # C11-int-index-malformed-alignment: alignment[int] returns an object with a 1-D trace
+    if mm.get("kind") == "align" and mm.get("what") == "index1":
+        idx = mm.get("index") or [[None]]
+        if idx[0][0] == "int" and mm["expected"][0] == "Rejected" and mm["observed"][0] == "ok" \
+                and mm["observed"][2][:1] == ["not-2d"]:
+            return "C11-int-index-malformed-alignment"
+    if mm.get("kind") == "event" and mm.get("op") == "index":
+        ev = mm.get("event", {})
+        exp = mm.get("expected") or []
+        if (ev.get("cidx", [None])[0] == "int" and ev.get("ridx", [None])[0] == "none" and len(exp) == 4
+                and exp[0] == "Rejected" and exp[3] is True and ev.get("obs", [None])[0] == "ok-not-2d"):
+            return "C11-int-index-malformed-alignment"
     if mm.get("kind") == "event" and mm.get("op") == "msa_exc":
         ev = mm.get("event", {})
         exp = mm.get("expected") or {}
@@ -840,8 +852,7 @@ def replay(record):
                     "mismatch": got[0] != exp[0] or (exp[0] == "ok" and got[1:3] != exp[1:3])}
         obs = observe_helpers(A, SUBST_M, SCORE_CASES)
         return {"observed": obs, "expected": record["expected"], "what": what,
-                "mismatch": json.dumps(obs, sort_keys=True) != json.dumps(record.get("observed_all", None), sort_keys=True)
-                and _still_differs(what, record["expected"], obs)}
+                "mismatch": _still_differs(what, record["expected"], obs)}
     if kind == "cigar_w":
         inp = record["input"]
         A = mkaln(inp["A"]["seqs"], inp["A"]["tr"])
@@ -898,6 +909,13 @@ def _still_differs(what, exp, obs):
         k = MODES.index(what.split(":")[1])
         goc, val = obs["ident_raw"][k]
         return goc != exp[0] or (exp[0] == "ok" and not frac_close(val, exp[1], exp[2]))
+    if key == "pairwise_identity":
+        k = MODES.index(what.split(":")[1])
+        goc, gm = obs["pident_raw"][k]
+        if goc != exp[0]:
+            return True
+        return exp[0] == "ok" and not all(frac_close(gm[i][j], exp[1][i][j][0], exp[1][i][j][1])
+                                          for i in range(len(gm)) for j in range(len(gm)))
     if key == "score":
         c = json.loads(what.split(":", 1)[1])
         k = SCORE_CASES.index(c)
@@ -929,6 +947,7 @@ def _dump_texts(ctx, module, cfg, stage, must_contain=None):
     texts = [t.strip() for t in texts if t.strip()]
     if must_contain:
         texts = [t for t in texts if must_contain in t]
+    texts.sort()          # TLC's dump order depends on worker scheduling; the check must not
     return res, texts
 
 
@@ -1051,7 +1070,8 @@ def run(ctx):
         raise Vacuity("MCMsa: no final state")
     # observed: every input set in the bounds through the real align_multiple, default settings
     res, ostates = helpers.dump_states(ctx, "MCMsaObs", f"MCMsaObs{tier}.cfg", stage="S2-msa-inputs", timeout=600)
-    oitems = [{"sets": ch} for ch in helpers.chunked([s["inputs"] for s in ostates], 50)]
+    osets = sorted({json.dumps(s["inputs"]) for s in ostates})
+    oitems = [{"sets": [json.loads(x) for x in ch]} for ch in helpers.chunked(osets, 50)]
     ores = helpers.run_pool(ctx, "harness.drivers.c11:exec_msa_observed", oitems, stage="S2-msa-observed", item_timeout=120)
     observed = [e for r in ores for e in r.get("events", [])]
     refused = sum(r.get("refused", 0) for r in ores)
